@@ -23,6 +23,18 @@ def make_obs(ctx):
                   bounds={'duration': '|UTC-naive seconds| < 2^24, 0..3 leap seconds in between, either order'}))
     obs.append(Ob('precalc-secs:S:wide', H, 'h_precalc_secs', {'FLAGS': 16, 'DBITS': 40}, units=UNITS, group='precalc-secs', timeout=900,
                   bounds={'duration': '|seconds| < 2^40', 'units requested': 'S'}))
+    # windows of 2^20 s around the places where a 32-bit intermediate would wrap (2^31, 2^32 seconds; 2^31 and
+    # 2^32 seconds' worth of days and weeks lie inside the calendar's 7.9e10 s span) and at the far end of the span
+    # (added after a missed seed: the cascade above stops short of 2^31)
+    bases = [(1 << 31) - (1 << 19), (1 << 32) - (1 << 19), 78700000000]
+    if ctx.tier == 'thorough':
+        bases += [(1 << 33) - (1 << 19), (1 << 34) - (1 << 19), (1 << 35) - (1 << 19), (1 << 36) - (1 << 19), 40000000000]
+    for base in bases:
+        for fl in ((3, 6, 17, 18, 31) if ctx.tier == 'quick' else range(1, 32)):
+            tag = ''.join(names[i] for i in range(5) if fl >> i & 1)
+            obs.append(Ob('precalc-secs:%s:@%d' % (tag, base), H, 'h_precalc_secs', {'FLAGS': fl, 'DBITS': 20, 'DBASE': '%dLL' % base},
+                          units=UNITS, group='precalc-secs-window', timeout=900,
+                          bounds={'duration': '%d <= |seconds| < %d + 2^20' % (base, base), 'units requested': tag}))
     for fl in range(0, 8):
         tag = ''.join('Yqm'[i] for i in range(3) if fl >> i & 1) or '-'
         obs.append(Ob('precalc-ymd:%s' % tag, H, 'h_precalc_ymd', {'FLAGS': fl}, units=UNITS, group='precalc-ymd',
